@@ -5,10 +5,10 @@ CONSTANTS DefaultMaxDepth = 20
   FixF6 = TRUE
   FixEq = TRUE
   FixF5 = TRUE
-  MaxNodes = 5
-  MaxHeight = 3
+  MaxNodes = 6
+  MaxHeight = 4
   Decos = {0}
-  MDs = {0, 2}
+  MDs = {0, 3}
   Pres <- PresNone
   GenMode = FALSE
 INVARIANTS ImplMeetsSpec SpecSane
